@@ -111,9 +111,9 @@ func tokenize(s string) ([]token, error) {
 		c, l := utf8.DecodeRuneInString(s[i:])
 
 		switch {
-		case unicode.IsSpace(c):
+		case isSpace(c):
 			// ignore
-		case unicode.IsLetter(c) || c == '_':
+		case isWordStart(c):
 			bt, bl := readBareword(s[i:])
 			tnr := tBare
 			if n, ok := keywords[strings.ToUpper(bt)]; ok {
@@ -166,12 +166,22 @@ func tokenize(s string) ([]token, error) {
 	}
 }
 
+// White space is what SQLite takes for it: the ASCII characters only. Other
+// Unicode spaces (U+00A0, U+0085, U+3000, ...) are, like every byte above
+// 0x7f, part of a word.
+func isSpace(r rune) bool {
+	return r == ' ' || (r >= '\t' && r <= '\r')
+}
+
+func isWordStart(r rune) bool {
+	return unicode.IsLetter(r) || r == '_' || r >= 0x80
+}
+
 func readBareword(s string) (string, int) {
 	for i, r := range s {
 		switch {
-		case unicode.IsLetter(r):
+		case isWordStart(r):
 		case i > 0 && unicode.IsDigit(r):
-		case r == '_':
 		default:
 			return s[:i], i
 		}
